@@ -339,9 +339,9 @@ def fresh(x):
     return "".join(list(x)) if isinstance(x, str) else x
 
 
-def build_parent(content, attrs, w):
+def build_parent(content, attrs, w, name=PARENT):
     from metapype.model.node import Node
-    n = Node(fresh(PARENT), content=fresh(content))
+    n = Node(fresh(name), content=fresh(content))
     for k, v in attrs:
         n.add_attribute(fresh(k), fresh(v))
     for k in w:
@@ -476,6 +476,19 @@ def impl_fresh(rname, content, attrs, w):
     out = RL.run_both(lambda errs: R.Rule(fresh(rname)).validate_rule(n, errs))
     Node.store.clear()
     return out
+
+
+def impl_named_parent(rname, element, content, attrs, w):
+    """the parent carries the name of an element mapped to the rule: through Rule(rname).validate_rule and
+    through validate.node, both modes each"""
+    from metapype.eml import rule as R
+    from metapype.eml import validate
+    from metapype.model.node import Node
+    n = build_parent(content, attrs, w, name=element)
+    via_rule = RL.run_both(lambda errs: R.Rule(fresh(rname)).validate_rule(n, errs))
+    via_node = RL.run_both(lambda errs: validate.node(n, errs))
+    Node.store.clear()
+    return via_rule, via_node
 
 
 # ------------------------------------------------------------------ statement on one observation
@@ -634,6 +647,7 @@ def run(ctx):
     # ---------------- (B-i) + (S) over the shipped table
     cases, wants, meta = [], [], []
     per_rule_dec = []
+    per_rule_info = {}
     exhaustive_s = True
     n_band = 0
     for rname, rj in rules.items():
@@ -749,6 +763,7 @@ def run(ctx):
             if not acc:
                 ctx.count("S:ff=" + ff)
         per_rule_dec.append((rname, alpha, dec_items))
+        per_rule_info[rname] = (sp, mixed, names, alpha, content, attrs, observed)
 
         seen = set()
         for w in c_words:
@@ -763,6 +778,52 @@ def run(ctx):
             ctx.count("B:shipped")
         ctx.sample({"rule": rname, "word": c_words[-1] if c_words else [], "observed": list(observe(c_words[-1])) if c_words else None},
                    limit=6)
+    # ---------------- element names (lesson m): the verdict depends on the RULE, not on the parent's name
+    # For every element name mapped to a rule in rule.node_mappings the short words are validated again with
+    # that name on the parent, through Rule(rname).validate_rule and through validate.node; the verdict must be
+    # the one observed with the neutral name 'p'.  The one documented exception is the parent name 'metadata'
+    # (any single child) — that clause is C05's and is not exercised here.
+    n_per_name = 40 if thorough else 12
+    e_cases, e_wants, e_meta = [], [], []
+    name_runs = 0
+    for element, rname in R.node_mappings.items():
+        if element == "metadata" or rname not in per_rule_info:
+            continue
+        sp, mixed, names, alpha, content, attrs, observed = per_rule_info[rname]
+        pool = [list(k) for k in observed if len(k) <= 3]
+        rng.shuffle(pool)
+        words = [[], [FOREIGN]] + pool[:n_per_name]
+        if sp is not None:
+            words.append(sample_lang(rng, sp))
+        seen = set()
+        for w in words:
+            tw = tuple(w)
+            if tw in seen:
+                continue
+            seen.add(tw)
+            if tw not in observed:
+                observed[tw] = impl_fresh(rname, content, attrs, w)
+            neutral = observed[tw]
+            via_rule, via_node = impl_named_parent(rname, element, content, attrs, w)
+            name_runs += 1
+            ctx.case(("name", element, tw), nontrivial=True)
+            for how, got in (("Rule(%s).validate_rule" % rname, via_rule), ("validate.node", via_node)):
+                if tuple(got[0:1]) + tuple(got[1]) != tuple(neutral[0:1]) + tuple(neutral[1]):
+                    in_l = all(x in names for x in w) and in_language(sp, w, mixed, True)
+                    ctx.fail(f"C01:name-dependent:{rname}:{element}",
+                             f"a parent named '{element}' (rule {rname}) gets another verdict than the same children under "
+                             f"a neutrally named parent governed by the same rule, via {how}",
+                             {"kind": "impl-vs-statement", "rule": rname, "element": element, "word": w, "via": how,
+                              "observed": {"fail_fast": got[0], "collecting_codes": got[1]},
+                              "with_neutral_parent_name": {"fail_fast": neutral[0], "collecting_codes": neutral[1]},
+                              "expected": {"in_L": in_l}})
+            if len(e_cases) < 1500 and len(w) <= 1:
+                e_cases.append(RL.coq_ncase(element, content, attrs, w))
+                e_wants.append(RL.coq_outcome(via_node))
+                e_meta.append({"element": element, "rule": rname, "word": w, "observed": list(via_node)})
+    ctx.count("element-name runs", name_runs)
+    ctx.extra["element_names_exercised"] = len([e for e, r in R.node_mappings.items() if e != "metadata" and r in per_rule_info])
+
     ctx.extra["statement_search_exhaustive_up_to_len"] = s_len if exhaustive_s else "capped"
     ctx.extra["band_words_skipped"] = n_band
 
@@ -867,7 +928,16 @@ def run(ctx):
     t0 = time.time()
     bad2, errors2 = RL.coq_compare(ctx, "rand", "run_rcase (range_ew, range_ns)", r_cases, r_wants)
     timing["coq_corr_random"] = round(time.time() - t0, 1)
-    ctx.extra["traces_validated_against_impl"] = len(cases) - len(bad) + len(r_cases) - len(bad2)
+    bad3, errors3 = RL.coq_compare(ctx, "names", "run_ncase tb", e_cases, e_wants)
+    ctx.extra["correspondence_cases_element_names"] = len(e_cases)
+    ctx.extra["traces_validated_against_impl"] = len(cases) - len(bad) + len(r_cases) - len(bad2) + len(e_cases) - len(bad3)
+    for name, out in errors3:
+        ctx.fail("corr:coq-error", f"case file {name} did not evaluate",
+                 {"kind": "broken-correspondence", "file": name, "output": out}, concrete=False)
+    for i in bad3[:5]:
+        m = e_meta[i]
+        ctx.fail(f"corr:element:{m['element']}", "model (validate_node) and implementation (validate.node) disagree for a named element",
+                 {"kind": "broken-correspondence", "case": m, "model": RL.coq_show(ctx, "names", "run_ncase tb", e_cases[i])}, concrete=False)
     ctx.extra["correspondence_cases"] = {"shipped": len(cases), "random": len(r_cases)}
     for name, out in errors + errors2:
         ctx.fail("corr:coq-error", f"case file {name} did not evaluate",
@@ -903,6 +973,15 @@ def replay(ctx, data):
     print(f"rule={rname} word={w} fail_fast={ff} collecting={codes} "
           f"in_L={member(sp, w, rname in MIXED_RULES, True)} in_Llen={member(sp, w, rname in MIXED_RULES, False)}")
     ctx.case((rname, tuple(w)))
+    if rep.get("element"):
+        el = rep["element"]
+        via_rule, via_node = impl_named_parent(rname, el, RL.canonical_content(rj), required_attrs(rj), w)
+        print(f"parent named '{el}': via Rule.validate_rule {via_rule}, via validate.node {via_node}; neutral parent name: {(ff, codes)}")
+        for how, got in (("Rule.validate_rule", via_rule), ("validate.node", via_node)):
+            if (got[0], list(got[1])) != (ff, list(codes)):
+                ctx.fail(f"C01:name-dependent:{rname}:{el}", f"the verdict depends on the parent's name ({how})",
+                         {"kind": "impl-vs-statement", "rule": rname, "element": el, "word": w, "via": how,
+                          "observed": list(got), "with_neutral_parent_name": [ff, codes]})
     sc = before = None
     prior = rep.get("shared_list", {}).get("prior_words")
     if prior is not None:
